@@ -7,6 +7,19 @@ ROOT = os.path.dirname(os.path.dirname(os.path.abspath(__file__)))
 ALL = [f"C{k:02d}" for k in range(1, 21)]
 
 CLAIMED = {
+    "C16": dict(
+        text=("TextIO.tla defines what `cooler dump` must print (DumpRows) through the library queries of the specification (stored "
+              "records in the window in storage order; the full-matrix block with fill-lower; joined coordinates; balanced values; "
+              "one-based ids/starts; header) and how the loaders hand a field layout to pandas; TLC checks for ALL layouts of 5 "
+              "named fields over 7 columns (2520) that the repaired hand-over reads every name from the requested column, the pinned "
+              "one is refuted (F7). Real `cooler dump` runs over all 32 option combinations x whole/one-region/two-region x chunk "
+              "sizes on six table shapes are parsed and compared by TLC with DumpRows; `cooler cload pairs` / `cooler load --field` "
+              "with non-monotone layouts must produce the pixel table the specification's binning gives for the same records; "
+              "dump -> load (COO and bedGraph-2D, zero/one-based) must reproduce pixels, table, storage mode and a ValidCSR file; "
+              "the resolution-spec spellings of `cooler zoomify -r` are expanded by the specification."),
+        design_ref="DESIGN.md section 6 C16, section 4.11",
+        note="Trusted: TLC, text parsing of the dump output (tab-separated integers), power-of-two weights for exact balanced values.",
+        technique="TLA+ specification of dump rows / field layouts checked by TLC + TLC trace validation of real CLI runs", category="model_checking"),
     "C05": dict(
         text=("Ingest.tla: TLC checks for ALL bin tables (<=2 chromosomes, length<=3/4, all compositions) x ALL single records with both "
               "anchors anywhere in -1..length+2 on known/unknown chromosomes x zero/one-based x reflect/drop/none (68k states), and "
